@@ -4,6 +4,7 @@
 //! exit 1: `VIOLATION property=<id> replay=<path>` printed
 //! exit 2: inconclusive (generator health, watchdog, usage)
 
+mod brokersim;
 mod engine;
 mod props;
 pub mod topic;
